@@ -90,6 +90,12 @@ func c02Alphabet(s *sessSys) []sessReq {
 				}
 			}
 			if c == 0 {
+				// a new establishment (other CP F-SEID, other UE) that re-uses the sequence number of the connection's previous,
+				// answered request: it is answered for what it is, not with an earlier answer
+				p, f, q := rsBasic(fmt.Sprintf("16.0.%d.%d", c, n+1), uint32(0x100+n), "11.1.1.129")
+				add("est-basic-sameseq", sessReq{sReq: sReq{Kind: kEst, Conn: c, CPSEID: 0x5A00 + uint64(n), CreatePDR: p, CreateFAR: f, CreateQER: q}, SameSeq: true})
+			}
+			if c == 0 {
 				p, f, q := rsBasic("16.0.9.9", 0x999, "11.1.1.129")
 				add("est-wrong-node", sessReq{sReq: sReq{Kind: kEst, Conn: c, CPSEID: 5, NodeID: "10.9.9.9", CreatePDR: p, CreateFAR: f, CreateQER: q}})
 			}
@@ -102,6 +108,9 @@ func c02Alphabet(s *sessSys) []sessReq {
 				add("mod-ufar", sessReq{sReq: sReq{Kind: kMod, Conn: c, UpdateFAR: []sFAR{nf}}, Sess: x.Idx})
 				if x.CPSEID != 0x77 {
 					add("mod-newcp", sessReq{sReq: sReq{Kind: kMod, Conn: c, HasCP: true, CPSEID: 0x77, UpdateFAR: []sFAR{nf}}, Sess: x.Idx})
+					if c == 0 {
+						add("mod-newcp-sameseq", sessReq{sReq: sReq{Kind: kMod, Conn: c, HasCP: true, CPSEID: 0x77, UpdateFAR: []sFAR{nf}}, Sess: x.Idx, SameSeq: true})
+					}
 				}
 			}
 			add("mod-remove-unknown", sessReq{sReq: sReq{Kind: kMod, Conn: c, RemovePDR: []uint16{99}}, Sess: x.Idx})
